@@ -1053,7 +1053,8 @@ pub fn model_cmp(d: &Desc, a: &Value, b: &Value) -> Option<core::cmp::Ordering> 
 /// Reference `==` (derive(PartialEq) semantics: floats by IEEE comparison).
 pub fn model_eq(d: &Desc, a: &Value, b: &Value) -> bool {
     match d {
-        Desc::Float { size, .. } => float_of(a.u(), *size) == float_of(b.u(), *size),
+        // native floats compare by IEEE rules; portable ones by their stored bytes (derive(PartialEq) on the byte array)
+        Desc::Float { size, endian: Endian::Native, .. } => float_of(a.u(), *size) == float_of(b.u(), *size),
         Desc::Array(e, _) | Desc::Vec { elem: e, .. } => {
             a.fields().len() == b.fields().len() && a.fields().iter().zip(b.fields()).all(|(x, y)| model_eq(e, x, y))
         }
@@ -1285,5 +1286,89 @@ pub fn serialize_portable(d: &Desc, v: &Value, out: &mut Vec<Option<u8>>) {
                 out.extend(body);
             }
         }
+    }
+}
+
+// ---------------------------------------------------------------------------
+// navigation
+
+/// Shape and value of the sub-object at `path` (field / element / item indices).
+pub fn node_at<'a>(d: &'a Desc, v: &'a Value, path: &[u32]) -> Option<(&'a Desc, &'a Value)> {
+    let (mut d, mut v) = (d, v);
+    for p in path {
+        let i = *p as usize;
+        let (nd, nv): (&Desc, &Value) = match (d, v) {
+            (Desc::Array(e, _), Value::Arr(f)) => (&**e, f.get(i)?),
+            (Desc::Vec { elem, .. }, Value::Seq(f)) => (&**elem, f.get(i)?),
+            (Desc::Flex { item, .. }, Value::Seq(f)) => (&**item, f.get(i)?),
+            (Desc::Struct { fields, .. }, Value::Struct(f)) => (fields.get(i)?, f.get(i)?),
+            (Desc::Enum { variants, .. }, Value::Var(k, f)) => (variants.get(*k)?.get(i)?, f.get(i)?),
+            _ => return None,
+        };
+        d = nd;
+        v = nv;
+    }
+    Some((d, v))
+}
+
+/// Replace the sub-value at `path`.
+pub fn set_at(v: &mut Value, path: &[u32], new: Value) -> bool {
+    match path.split_first() {
+        None => {
+            *v = new;
+            true
+        }
+        Some((i, rest)) => match v {
+            Value::Arr(f) | Value::Seq(f) | Value::Struct(f) | Value::Var(_, f) => match f.get_mut(*i as usize) {
+                Some(c) => set_at(c, rest, new),
+                None => false,
+            },
+            _ => false,
+        },
+    }
+}
+
+/// Chain layout of a FlexVec located at bytes[off..off+avail]: per item
+/// (slot position, payload offset, payload bytes available), all relative to `off`,
+/// plus how the chain ends.
+#[derive(Clone, Debug, PartialEq)]
+pub enum FlexEnd {
+    Empty,
+    /// last item is marked L::MAX (slot position given)
+    Open(usize),
+    /// explicit terminator at this position
+    Terminated(usize),
+}
+
+pub fn flex_layout(d: &Desc, bytes: &[u8], off: usize, avail: usize) -> Option<(Vec<(usize, usize, usize)>, FlexEnd, usize)> {
+    let (len, slot, al) = match d {
+        Desc::Flex { len, .. } => (*len, d.flex_slot(), d.align()),
+        _ => return None,
+    };
+    let ku = floor_to(avail, al);
+    let mut items = Vec::new();
+    let mut pos = 0usize;
+    loop {
+        if ku < pos + len.size {
+            return None;
+        }
+        let o = read_uint(&bytes[off + pos..off + pos + len.size], len.endian);
+        if o == 0 {
+            let end = if items.is_empty() { FlexEnd::Empty } else { FlexEnd::Terminated(pos) };
+            return Some((items, if pos == 0 { FlexEnd::Empty } else { end }, ku));
+        }
+        if o == len.max() {
+            if ku < pos + slot {
+                return None;
+            }
+            items.push((pos, pos + slot, ku - pos - slot));
+            return Some((items, FlexEnd::Open(pos), ku));
+        }
+        let o = o as usize;
+        if o < slot || pos + o > ku {
+            return None;
+        }
+        items.push((pos, pos + slot, o - slot));
+        pos += o;
     }
 }
